@@ -5,7 +5,7 @@ CONSTANTS
  Defect = "none"
  Cfgs <- CCorner
  MaxCalls = 2
- Rounds = {-1, 0, 1}
+ Rounds <- CornerRounds
  Steps = {250, 500}
  MaxTime = 1500
 INVARIANTS Safety
